@@ -128,10 +128,10 @@ func evalStream(c *scase) (string, int) {
 	} else if t.FaultErr != nil {
 		want = t.FaultErr
 	}
-	if lastc.Err != want {
+	if !errors.Is(lastc.Err, want) {
 		return fmt.Sprintf("terminal error %v is not the transport's own error %v", lastc.Err, want), n
 	}
-	if lastc.To != limit {
+	if c.Fault == "" && lastc.To != limit {
 		return fmt.Sprintf("terminal error reported after consuming %d of %d bytes", lastc.To, limit), n
 	}
 	// clean streams: every valid frame comes out, in order
